@@ -72,6 +72,7 @@ typedef struct {
 	long conf_arrived;              /* authentic configuration payloads that reached the client so far */
 	KSI_AsyncHandle *kept;          /* part "readd": the handle returned last, still owned by the application */
 	unsigned kept_seed;
+	int kept_is_conf;
 	int violated;
 } world_t;
 static int g_ext;                  /* part "extconf": the service is an extending service (configuration requests and pushed configurations only) */
@@ -344,7 +345,7 @@ static void check_returned(KSI_AsyncHandle *h) {
 	} else {
 		HF("non-final-state", "request #%d handed back in non-final state %d", idx, state); W.violated = 1;
 	}
-	if (g_keep && !W.req[idx].is_conf) { KSI_AsyncHandle_free(W.kept); W.kept = h; W.kept_seed = W.req[idx].seed; }
+	if (g_keep && (!W.req[idx].is_conf || g_keep == 2)) { KSI_AsyncHandle_free(W.kept); W.kept = h; W.kept_seed = W.req[idx].seed; W.kept_is_conf = W.req[idx].is_conf; }
 	else KSI_AsyncHandle_free(h);
 }
 
@@ -448,12 +449,25 @@ static int apply_inner(int ev) {
 			if (res == KSI_OK) {
 				if (outstanding() >= W.cfg.cache) { HF("cache-overfull", "re-submitted request accepted although %d requests are outstanding with cache size %d", outstanding(), W.cfg.cache); W.violated = 1; }
 				memset(&W.req[W.nreq], 0, sizeof W.req[0]);
-				W.req[W.nreq].h = W.kept; W.req[W.nreq].seed = W.kept_seed; W.req[W.nreq].add_time = sn_now; W.req[W.nreq].add_step = W.step; W.nreq++;
+				W.req[W.nreq].h = W.kept; W.req[W.nreq].seed = W.kept_seed; W.req[W.nreq].add_time = sn_now; W.req[W.nreq].add_step = W.step;
+				if (W.kept_is_conf) { W.req[W.nreq].is_conf = 1; W.req[W.nreq].conf_seen_at_add = W.conf_arrived; }
+				W.nreq++;
 				W.kept = NULL;
-				vf_outcome("readd:accepted");
+				vf_outcome(W.kept_is_conf ? "readd-conf:accepted" : "readd:accepted");
+			} else if (res == KSI_ASYNC_REQUEST_CACHE_FULL && W.kept_is_conf) {
+				/* a configuration request: refused while the cache is full or another one is outstanding */
+				int k, other = 0;
+				for (k = 0; k < W.nreq; k++) if (W.req[k].is_conf && !W.req[k].returned) other = 1;
+				vf_outcome("readd-conf:refused");
+				if (outstanding() != W.cfg.cache && !other) { HF("conf-refused-without-reason", "re-submitted configuration request refused while %d requests are outstanding (cache size %d) and no other configuration request is", outstanding(), W.cfg.cache); W.violated = 1; }
 			} else if (res == KSI_ASYNC_REQUEST_CACHE_FULL) {
 				vf_outcome("readd:cache-full");
 				if (outstanding() != W.cfg.cache) { HF("cache-full-early", "'cache full' for a re-submitted handle with %d outstanding requests and cache size %d", outstanding(), W.cfg.cache); W.violated = 1; }
+			} else if (res == KSI_INVALID_STATE && sn_last() != NULL && sn_last()->state != SN_CLOSED_BY_CLIENT && sn_last()->out.n > sn_last()->parsed_out) {
+				/* the handle's former request is partly written on the connection the client has not given up yet (it came back by a time-out or was answered by a pushed
+				 * configuration before the rest went out): a refusal is a definite answer; the caller keeps the handle and may try again after
+				 * the service has run */
+				vf_outcome("readd:refused:former-request-partly-written");
 			} else { vf_outcome("readd:error"); HF("add-error", "addRequest of a handle that had been returned failed with 0x%x", res); W.violated = 1; }
 			return 1;
 		}
@@ -848,6 +862,37 @@ static void part_conf(void) {
 	}
 }
 
+/* configuration requests whose handle is submitted again after it came back (as the answer to the request, or because a pushed
+ * configuration answered it while it was only partly written): the byte stream stays a sequence of whole requests */
+static void part_confreadd(void) {
+	static const int ALPHA[] = {EV_ADD_CONF, EV_READD, EV_RUN, EV_PUSH_CONF, EV_SEND_PARTIAL, EV_DELIVER_ALL, EV_CLOCK_BIG, EV_PEER_CLOSE, EV_ADD, EV_REPLY_OLDEST};
+	static const int CFGI[] = {1, 0};
+	int na = 10, ci, a2, depth = VF_THOROUGH ? 9 : 7, e;
+	g_keep = 2;
+	for (ci = 0; ci < 2; ci++) for (a2 = 0; a2 < na; a2++) {
+		int hist[16];
+		if (!vf_case_begin("confreadd:cfg%d:K%c:d%d", CFGI[ci], EVCH[ALPHA[a2]], depth)) continue;
+		g_nalpha = 0;
+		for (e = 0; e < na; e++) g_alpha[g_nalpha++] = ALPHA[e];
+		memset(seen, 0, ((size_t)1 << SEEN_BITS) * sizeof *seen);
+		n_states = n_transitions = n_pruned = n_traces = 0;
+		hist[0] = EV_ADD_CONF; hist[1] = ALPHA[a2];
+		explore(&CONFIGS[CFGI[ci]], hist, 2, depth);
+		vf_count("states", n_states); vf_count("transitions", n_transitions); vf_count("traces", n_traces); vf_count("pruned_revisits", n_pruned);
+		/* deeper behind the prefix in which the request is half written and a pushed configuration is on its way */
+		memset(seen, 0, ((size_t)1 << SEEN_BITS) * sizeof *seen);
+		n_states = n_transitions = n_pruned = n_traces = 0;
+		hist[0] = EV_ADD_CONF; hist[1] = EV_SEND_PARTIAL; hist[2] = EV_RUN; hist[3] = EV_PUSH_CONF; hist[4] = ALPHA[a2];
+		explore(&CONFIGS[CFGI[ci]], hist, 5, depth + 2);
+		vf_count("states", n_states); vf_count("transitions", n_transitions); vf_count("traces", n_traces); vf_count("pruned_revisits", n_pruned);
+		if (ci == 0 && a2 == 4) vf_sample("confreadd part: cfg %d prefix Kp depth %d over {add-conf, re-add the handle returned last, run, config payload, partial send, deliver all, clock, peer close, add, reply}: %ld states, %ld transitions", CFGI[ci], depth, n_states, n_transitions);
+		vf_obs("states=%ld", n_states);
+		alpha_main();
+		vf_case_end(n_traces > 0);
+	}
+	g_keep = 0;
+}
+
 /* the service is also driven by calls that pass no receiving handle pointer: such a call makes progress but hands nothing out, so every
  * finished request is still there for the next ordinary call */
 static void part_pump(void) {
@@ -992,6 +1037,7 @@ static void run(void) {
 	part_sndbuf();
 	part_extconf();
 	part_pump();
+	part_confreadd();
 	for (ci = 0; ci < NCONFIGS; ci++) {
 		int d = depth;
 		if (!VF_THOROUGH && ci >= 4) d = depth - 1;
